@@ -15,6 +15,7 @@
 #include <cstdlib>
 #include <limits>
 #include <ostream>
+#include <ratio>
 
 #include "opentelemetry/nostd/string_view.h"
 #include "opentelemetry/sdk/common/global_log_handler.h"
@@ -87,8 +88,25 @@ bool GetBoolEnvironmentVariable(const char *env_var_name, bool &value)
   return true;
 }
 
+// Converts a count of UnitDuration to the system clock duration, unless the result does not fit.
+template <class UnitDuration>
+static bool ToSystemClockDuration(std::chrono::system_clock::duration::rep count,
+                                  std::chrono::system_clock::duration &value)
+{
+  using Target = std::chrono::system_clock::duration;
+  using Ratio  = std::ratio_divide<typename UnitDuration::period, Target::period>;
+  if (count > (std::numeric_limits<Target::rep>::max)() / Ratio::num)
+  {
+    return false;
+  }
+  value = std::chrono::duration_cast<Target>(UnitDuration{count});
+  return true;
+}
+
 static bool GetTimeoutFromString(const char *input, std::chrono::system_clock::duration &value)
 {
+  constexpr auto kMaxCount =
+      (std::numeric_limits<std::chrono::system_clock::duration::rep>::max)();
   std::chrono::system_clock::duration::rep result = 0;
 
   // Skip spaces
@@ -97,7 +115,13 @@ static bool GetTimeoutFromString(const char *input, std::chrono::system_clock::d
 
   for (; *input && std::isdigit(*input); ++input)
   {
-    result = result * 10 + (*input - '0');
+    const int digit = *input - '0';
+    if (result > (kMaxCount - digit) / 10)
+    {
+      // The count does not fit the representation.
+      return false;
+    }
+    result = result * 10 + digit;
   }
 
   if (result == 0)
@@ -110,44 +134,32 @@ static bool GetTimeoutFromString(const char *input, std::chrono::system_clock::d
 
   if (unit == "ns")
   {
-    value = std::chrono::duration_cast<std::chrono::system_clock::duration>(
-        std::chrono::nanoseconds{result});
-    return true;
+    return ToSystemClockDuration<std::chrono::nanoseconds>(result, value);
   }
 
   if (unit == "us")
   {
-    value = std::chrono::duration_cast<std::chrono::system_clock::duration>(
-        std::chrono::microseconds{result});
-    return true;
+    return ToSystemClockDuration<std::chrono::microseconds>(result, value);
   }
 
   if (unit == "ms")
   {
-    value = std::chrono::duration_cast<std::chrono::system_clock::duration>(
-        std::chrono::milliseconds{result});
-    return true;
+    return ToSystemClockDuration<std::chrono::milliseconds>(result, value);
   }
 
   if (unit == "s")
   {
-    value = std::chrono::duration_cast<std::chrono::system_clock::duration>(
-        std::chrono::seconds{result});
-    return true;
+    return ToSystemClockDuration<std::chrono::seconds>(result, value);
   }
 
   if (unit == "m")
   {
-    value = std::chrono::duration_cast<std::chrono::system_clock::duration>(
-        std::chrono::minutes{result});
-    return true;
+    return ToSystemClockDuration<std::chrono::minutes>(result, value);
   }
 
   if (unit == "h")
   {
-    value =
-        std::chrono::duration_cast<std::chrono::system_clock::duration>(std::chrono::hours{result});
-    return true;
+    return ToSystemClockDuration<std::chrono::hours>(result, value);
   }
 
   if (unit == "")
@@ -155,9 +167,7 @@ static bool GetTimeoutFromString(const char *input, std::chrono::system_clock::d
     // TODO: The spec says milliseconds, but opentelemetry-cpp implemented
     // seconds by default. Fixing this is a breaking change.
 
-    value = std::chrono::duration_cast<std::chrono::system_clock::duration>(
-        std::chrono::seconds{result});
-    return true;
+    return ToSystemClockDuration<std::chrono::seconds>(result, value);
   }
 
   // Failed to parse the input string.
@@ -210,6 +220,7 @@ bool GetUintEnvironmentVariable(const char *env_var_name, std::uint32_t &value)
 
   const char *end  = raw_value.c_str() + raw_value.length();
   char *actual_end = nullptr;
+  errno            = 0;
   const auto temp  = std::strtoull(raw_value.c_str(), &actual_end, 10);
 
   if (errno == ERANGE)
@@ -219,7 +230,8 @@ bool GetUintEnvironmentVariable(const char *env_var_name, std::uint32_t &value)
                                                     << raw_value << ">, defaulting to "
                                                     << kDefaultValue);
   }
-  else if (actual_end != end || std::numeric_limits<std::uint32_t>::max() < temp)
+  else if (actual_end != end || std::numeric_limits<std::uint32_t>::max() < temp ||
+           raw_value.find('-') != std::string::npos)
   {
     OTEL_INTERNAL_LOG_WARN("Environment variable <" << env_var_name << "> has an invalid value <"
                                                     << raw_value << ">, defaulting to "
@@ -249,6 +261,7 @@ bool GetFloatEnvironmentVariable(const char *env_var_name, float &value)
 
   const char *end  = raw_value.c_str() + raw_value.length();
   char *actual_end = nullptr;
+  errno            = 0;
   value            = std::strtof(raw_value.c_str(), &actual_end);
 
   if (errno == ERANGE)
